@@ -340,7 +340,12 @@ class Gen:
         for i in range(n):
             last = i == n - 1
             self.in_choice_alt = not last
-            items = [shared if rng.random() < 0.7 else self.fresh_tok()]
+            if last and rng.random() < 0.2:
+                # a final alternative that can match the empty string (taken through its follow set)
+                items = [('opt', self.fresh_tok())]
+                self.g.features.add('choice_nullable_last')
+            else:
+                items = [shared if rng.random() < 0.7 else self.fresh_tok()]
             for _ in range(rng.randint(0, 2)):
                 items.append(self.item(0) if rng.random() < 0.7 else self.item(1))
             if not last and self.p('commit'):
